@@ -173,3 +173,31 @@ func liftX(x *big.Int) (*big.Int, bool) {
 }
 
 func curveNMinus1() *big.Int { return new(big.Int).Sub(curveN, big.NewInt(1)) }
+
+// aliasChar replaces one character of s by a byte sequence that a sloppy decoder may
+// confuse with it: a multi-byte UTF-8 rune whose code point has the same low byte
+// (U+01xx, U+02xx), or the byte with bit 5, 6 or 7 flipped (case bit, control-char
+// alias of digits, high bit).
+func aliasChar(t *rapid.T, s string) string {
+	if len(s) == 0 {
+		return s
+	}
+	i := rapid.IntRange(0, len(s)-1).Draw(t, "alias_i")
+	c := s[i]
+	var rep string
+	switch rapid.IntRange(0, 5).Draw(t, "alias_kind") {
+	case 0:
+		rep = string(rune(0x100 + int(c)))
+	case 1:
+		rep = string(rune(0x200 + int(c)))
+	case 2:
+		rep = string([]byte{c ^ 0x20})
+	case 3:
+		rep = string([]byte{c ^ 0x40})
+	case 4:
+		rep = string([]byte{c | 0x80})
+	default:
+		rep = string(rune(0xff00 + int(c))) // full-width forms block
+	}
+	return s[:i] + rep + s[i+1:]
+}
